@@ -535,6 +535,13 @@ pub fn gen_cases(rng: &mut Rng, n: usize, max_depth: usize) -> Vec<Case> {
         r#"{"type":"record","name":"R","aliases":["Old","x.Y"],"doc":"d","fields":[{"name":"a","aliases":["b"],"doc":"fd","type":"long","default":1}]}"#,
         r#"{"type":"record","name":"L","fields":[{"name":"v","type":"long"},{"name":"next","type":["null","L"]}]}"#,
         r#"{"type":"map","values":{"type":"string","logicalType":"uuid"},"x":1}"#,
+        // named logical types defined once and referred to by name
+        r#"{"type":"record","name":"R","fields":[{"name":"a","type":{"type":"fixed","name":"D","size":12,"logicalType":"duration"}},{"name":"b","type":"D"}]}"#,
+        r#"{"type":"record","name":"ns.R","fields":[{"name":"a","type":{"type":"fixed","name":"U","size":16,"logicalType":"uuid"}},{"name":"b","type":["null","ns.U"]}]}"#,
+        r#"{"type":"record","name":"R","fields":[{"name":"a","type":{"type":"fixed","name":"x.M","size":4,"logicalType":"decimal","precision":6,"scale":2}},{"name":"b","type":{"type":"array","items":"x.M"}}]}"#,
+        // unusual but legal names and namespaces
+        r#"{"type":"record","name":"com._internal.Event","aliases":["com._internal._v2.Old"],"fields":[{"name":"k","type":{"type":"enum","name":"com._internal.Kind","symbols":["A"]}},{"name":"d","type":{"type":"fixed","name":"com._internal._v2.Digest","size":2}},{"name":"k2","type":"com._internal.Kind"}]}"#,
+        r#"{"type":"fixed","name":"_","namespace":"_._","size":1}"#,
     ] {
         cases.push(Case { text: t.to_string(), origin: "catalogue" });
     }
@@ -801,7 +808,7 @@ pub fn run(args: &[String], which: &str) -> i32 {
                 // every reference resolves
                 if let Ok(Err(e)) = catch(|| ResolvedSchema::new(schema).map(|_| ())) {
                     let m = e.to_string();
-                    let class = if m.contains("Two schemas with the same fullname") || m.contains("mbiguous") { "accepted-not-well-formed: full name is" } else { "accepted-unresolvable" };
+                    let class = if m.contains("same fullname") || m.contains("mbiguous") { "accepted-not-well-formed: full name is" } else { "accepted-unresolvable" };
                     out.oracle_fail(class, &format!("ResolvedSchema::new fails on an accepted schema: {}", trunc(&m, 200)), &case);
                 }
             }
